@@ -613,9 +613,14 @@ Ltac gbreak H :=
 Lemma gstep_rank : forall i g fs p fs' p', gstep i g fs p = (fs', p') -> rank (p_pc p') <= pred (rank (p_pc p)).
 Proof.
   intros i g fs p fs' p' H. unfold Procs.gstep in H.
+  assert (forall r, snd (remove_sub g p r) = snd r) as RS
+    by (intros r; unfold remove_sub; destruct (p_pc p); destruct (g_sub g); reflexivity).
   destruct (g_cmd g).
-  - eapply step_rank; eauto.
-  - unfold Procs.step_compile in H. destruct (p_pc p) eqn:PC; gbreak H; inversion H; subst; simpl; try rewrite PC; simpl; lia.
+  - destruct (step name gen compile behave i (g_inv g) fs p) as [fs1 p1] eqn:E1.
+    assert (p' = p1) by (pose proof (RS (fs1, p1)) as Q; rewrite H in Q; simpl in Q; exact Q). subst. eapply step_rank; eauto.
+  - destruct (Procs.step_compile gen compile behave i (g_inv g) fs p) as [fs1 p1] eqn:E1.
+    assert (p' = p1) by (pose proof (RS (fs1, p1)) as Q; rewrite H in Q; simpl in Q; exact Q). subst. clear H. rename E1 into H.
+    unfold Procs.step_compile in H. destruct (p_pc p) eqn:PC; gbreak H; inversion H; subst; simpl; try rewrite PC; simpl; lia.
   - destruct (p_pc p) eqn:PC; inversion H; subst; simpl; try rewrite PC; simpl; lia.
   - destruct (p_pc p) eqn:PC; inversion H; subst; simpl; try rewrite PC; simpl; lia.
 Qed.
@@ -687,7 +692,9 @@ Qed.
 Lemma gsys_step_as_run : forall invs s i, gsys_step (map as_run invs) s i = sys_step name gen compile behave invs s i.
 Proof.
   intros invs s i. unfold Procs.gsys_step, Procs.sys_step.
-  rewrite nth_error_map. destruct (nth_error invs i) as [iv|]; simpl; reflexivity.
+  rewrite nth_error_map. destruct (nth_error invs i) as [iv|]; simpl; [|reflexivity].
+  destruct (nth_error (s_procs s) i) as [p|]; [|reflexivity].
+  unfold Procs.gstep, remove_sub. simpl. destruct (p_pc p); reflexivity.
 Qed.
 
 Lemma grun_as_run : forall invs fs0 sched, grun (map as_run invs) fs0 sched = run invs fs0 sched.
@@ -701,7 +708,7 @@ End General.
 (* mage -clean next to a run (distinct directories, shared cache): the cleaner empties the cache between the
    runner's build and its exec; the runner fails although alone it succeeds *)
 Definition w_clean_ginvs : list ginv := [as_run (w_inv 0 false);
-  {| g_inv := {| i_dir := 1; i_hashfast := false; i_gocache := true; i_force := false; i_args := "-clean" |}; g_cmd := CClean |}].
+  {| g_inv := {| i_dir := 1; i_hashfast := false; i_gocache := true; i_force := false; i_args := "-clean" |}; g_cmd := CClean; g_sub := None |}].
 Definition w_clean_sched := repeat 0 10 ++ [1] ++ repeat 0 2.
 
 Lemma clean_refuted_ex :
@@ -718,9 +725,27 @@ Qed.
 
 (* mage -compile in a twin directory (identical magefiles) next to a run: never touches the cache *)
 Definition w_compile_ginvs : list ginv := [as_run (w_inv 0 false);
-  {| g_inv := {| i_dir := 1; i_hashfast := false; i_gocache := true; i_force := false; i_args := "-compile" |}; g_cmd := CCompile |}].
+  {| g_inv := {| i_dir := 1; i_hashfast := false; i_gocache := true; i_force := false; i_args := "-compile" |}; g_cmd := CCompile; g_sub := None |}].
 Lemma compile_example :
   map (result_of (grun w_name w_gen w_compile w_behave w_compile_ginvs w_same_fs (flat_map (fun _ => [0; 1]) (seq 0 12)))) [0; 1] =
     [Some ("env/m", 0%Z); Some ("", 0%Z)] /\
   map (galone w_name w_gen w_compile w_behave w_compile_ginvs w_same_fs) [0; 1] = [Some ("env/m", 0%Z); Some ("", 0%Z)].
 Proof. vm_compute. split; reflexivity. Qed.
+
+(* a run in <dir>/magefiles (directory 1) next to a run in <dir> (directory 0, which has tagged magefiles of its own AND that
+   subdirectory): the start-up of the invocation in <dir> removes the generated file of <dir>/magefiles between its Chtimes
+   and its build *)
+Definition w_sub_ginvs : list ginv := [{| g_inv := w_inv 0 false; g_cmd := CRun; g_sub := Some 1 |}; as_run (w_inv 1 false)].
+Definition w_sub_sched := repeat 1 8 ++ repeat 0 12 ++ repeat 1 4.
+Lemma magefiles_subdir_refuted_ex :
+  exists name gen compile behave ginvs fs0 sched,
+    NoDup (map (fun g => i_dir (g_inv g)) ginvs) /\
+    result_of (grun name gen compile behave ginvs fs0 sched) 1 = Some fail /\
+    galone name gen compile behave ginvs fs0 1 = Some ("env/m", 0%Z) /\
+    result_of (grun name gen compile behave ginvs fs0 sched) 0 = galone name gen compile behave ginvs fs0 0.
+Proof.
+  exists w_name, w_gen, w_compile, w_behave, w_sub_ginvs, w_same_fs, w_sub_sched.
+  split.
+  - simpl. repeat constructor; simpl; intuition discriminate.
+  - vm_compute. repeat split; reflexivity.
+Qed.
